@@ -32,6 +32,8 @@ ALPHA = [-255, -2, -1, 0, 1, 2, 255]
 ACCS = ["U55_32", "U55_64", "U55_128", "U55_256", "U65_256", "U65_512"]
 DISTS = ["pal2", "pal4", "pal16", "pal32", "pal33", "pal40", "uniform9", "uniform8", "sparse", "verysparse", "laplace",
          "switch", "restart", "allzero", "const", "extremes", "zeroone", "sparse_big", "index", "sindex"]
+HOLE_WIDTHS = [8, 16, 24, 32, 48]
+DISTS += ["hole%d%s" % (w_, v) for w_ in HOLE_WIDTHS for v in ("", "p", "z", "pz")]
 MODES = ["palette", "direct", "zero_runs", "uncompressed", "wtrunc", "grc_switch", "palette_restart", "slice_32767"]
 MAX_VIOLATIONS_PER_CLAUSE = 12
 MAX_CRASHES_PER_SHARD = 4
@@ -204,7 +206,10 @@ def job_ident(job):
         w = job["w"]
         return s + "|w=" + (json.dumps(w, separators=(",", ":")) if len(w) <= 12 else "literal[%d]" % len(w))
     g = job["gen"]
-    return s + "|gen=%s,n=%s,seed=%s" % (g["dist"], job.get("n", "vol"), g.get("seed", 0))
+    s += "|gen=%s,n=%s,seed=%s" % (g["dist"], job.get("n", "vol"), g.get("seed", 0))
+    if job.get("poke"):
+        s += "|%s with %s" % (job.get("dtype", "int16"), ",".join("w[%d]=%d" % (p_, v) for p_, v in job["poke"]))
+    return s
 
 
 def entry_of(job):
@@ -343,13 +348,13 @@ def replay_requests(run, col, name, jobs, builds, nproc):
             if r["outcome"] in DIED or job.get("mode") != "py":
                 if r["outcome"] in DIED and "w" not in r:
                     # weights are needed by TLC to decide which clause a crash violates
-                    from ..c07_worker import gen_weights
-                    if "w" in job:
+                    from ..c07_worker import request_weights
+                    if "w" in job and not job.get("poke"):
                         r["w"] = job["w"]
                     else:
                         c = job.get("cfg")
                         n = c["od"] * c["kh"] * c["kw"] * c["id"] if c else job["n"]
-                        r["w"] = gen_weights(job["gen"], n).tolist() if n <= 20000 else []
+                        r["w"] = request_weights(job).tolist() if n <= 20000 else []
                         if n > 20000:       # too large for a trace line: in-range by construction of the generators
                             col.add("MemorySafe" if r["outcome"] == "crashed" else "LosslessInHardwareOrder", job, b,
                                     "process died: " + r.get("signature", ""), r.get("signature"))
@@ -611,8 +616,22 @@ def _main(run, tier):
     w = [((k * 5) % 200) - 100 for k in range(40)]
     w[17] = 256
     oor_jobs.append({"id": len(oor_jobs), "kind": "vol", "cfg": pk, "w": w})
-    ev, meta, _ = replay_requests(run, col, "oor", oor_jobs, builds, len(oor_jobs))
-    judge(run, col, "out of range", ev, meta, 1)
+    # element types wider than the codec's int16 and magnitudes around every power of two a narrowing could alias:
+    # an out-of-range value must be rejected whatever its residue modulo 2^8, 2^9, 2^16 or 2^32 is
+    mags = [256, 257, 300, 511, 512, 32767, 32768, 65281, 65535, 65536, 65537, 65536 + 255, 65536 + 300, 131072 + 3,
+            (1 << 24) + 5, (1 << 31) - 1]
+    for dt in ("int16", "uint16", "int32", "uint32", "int64"):
+        info = {"int16": (-(1 << 15), (1 << 15) - 1), "uint16": (0, (1 << 16) - 1), "int32": (-(1 << 31), (1 << 31) - 1),
+                "uint32": (0, (1 << 32) - 1), "int64": (-(1 << 63), (1 << 63) - 1)}[dt]
+        vals = [v for m in mags for v in (m, -m) if info[0] <= v <= info[1] and abs(v) < (1 << 31)]
+        for v in (vals if not quick or dt != "int16" else vals[::2]):
+            cfg = random_cfg(rng, 600)
+            n = cfg["od"] * cfg["kh"] * cfg["kw"] * cfg["id"]
+            oor_jobs.append({"id": len(oor_jobs), "kind": "vol", "cfg": cfg, "dtype": dt, "poke": [[rng.randrange(n), v]],
+                             "gen": {"dist": rng.choice(["uniform8", "laplace", "pal16", "sparse"]), "seed": rng.randrange(1 << 30)}})
+    ev, meta, _ = replay_requests(run, col, "oor", oor_jobs, builds, 12)
+    judge(run, col, "out of range", ev, meta, 2)
+    run.cov["out_of_range_element_types"] = ["int16", "uint16", "int32", "uint32", "int64"]
     run.cov["out_of_range_requests"] = len(oor_jobs)
 
     # ---- generated raw sequences and volumes, TLC-sized
